@@ -89,6 +89,9 @@ inductive Ask where
   | keyDescription (der : Bytes)
   | hardwareDetailsOK (certDer : Bytes)                  -- tpm.GetHardwareDetailsFromCertificate (own model in C17)
   | safetyNet (raw : Bytes)                              -- parse + chain validation + claims
+  | jwsHeaders (raw : Bytes)                             -- jwt.ParseSigned: number of signatures/headers
+  | jwsChain (raw : Bytes) (i : Nat) (pool : Nat)        -- Headers[i].Certificates(Roots: pool): leaf of the first chain
+  | jwsClaims (raw : Bytes) (leafDer : Bytes)            -- tok.Claims(leaf key): the payload
   deriving Repr, DecidableEq, Inhabited
 
 /-- Result of the SafetyNet dependency steps (go-jose + x509), in the order the code performs them. -/
